@@ -494,9 +494,10 @@ def run_check(prop, tier, queries, meta):
         samples = [{"query": r.query.name, "verdict": r.status} for r in main[:3]]
     cov = {
         "evaluations": len(main),
-        "distinct_nontrivial": len({r.query.name for r in passed if r.query.nontrivial and r.vccs > 0}),
-        "rule": meta.get("rule", "one solver query per listed harness configuration; a query is non-trivial if it "
-                                 "generated at least one verification condition and its witness twin reached the end of the harness"),
+        "distinct_nontrivial": len({r.query.name for r in main if r.status in ("PASS", "FAIL") and r.query.nontrivial and r.vccs > 0}),
+        "rule": meta.get("rule", "one solver query per listed harness configuration; a query counts as non-trivial if the solver "
+                                 "returned a verdict on at least one generated verification condition (witness twins, counted "
+                                 "separately under witness_reached, show the end of each harness is reachable)"),
         "samples": samples,
         "obligations": sum(r.n_props for r in main),
         "discharged": sum(r.n_success for r in main),
